@@ -125,3 +125,127 @@ func (o *Once) Do(f func()) {
 
 // Locker mirrors sync.Locker.
 type Locker = sync.Locker
+
+// Pool mirrors sync.Pool. Under the scheduler it is a deterministic LIFO (the interesting
+// behaviour: an item put back is handed to the next Get) and Get/Put are scheduling points;
+// outside an exploration it is the real pool.
+type Pool struct {
+	New   func() any
+	real  sync.Pool
+	m     Mutex
+	items []any
+	epoch int64
+}
+
+func (p *Pool) fresh() {
+	if e := sched.Epoch(); e != p.epoch {
+		p.epoch, p.items = e, nil
+	}
+}
+
+func (p *Pool) Get() any {
+	if !sched.Active() || sched.Killed() {
+		p.real.New = p.New
+		return p.real.Get()
+	}
+	p.m.Lock()
+	defer p.m.Unlock()
+	p.fresh()
+	if n := len(p.items); n > 0 {
+		x := p.items[n-1]
+		p.items = p.items[:n-1]
+		return x
+	}
+	if p.New != nil {
+		return p.New()
+	}
+	return nil
+}
+
+func (p *Pool) Put(x any) {
+	if !sched.Active() || sched.Killed() {
+		p.real.Put(x)
+		return
+	}
+	p.m.Lock()
+	p.fresh()
+	p.items = append(p.items, x)
+	p.m.Unlock()
+}
+
+// Map mirrors sync.Map: a mutex-guarded map whose operations are scheduling points.
+type Map struct {
+	m     Mutex
+	d     map[any]any
+	epoch int64
+}
+
+// fresh drops the contents when a new execution has begun (called with the lock held).
+func (m *Map) fresh() {
+	if e := sched.Epoch(); e != m.epoch {
+		m.epoch, m.d = e, nil
+	}
+}
+
+func (m *Map) Load(k any) (any, bool) {
+	m.m.Lock()
+	defer m.m.Unlock()
+	m.fresh()
+	v, ok := m.d[k]
+	return v, ok
+}
+
+func (m *Map) Store(k, v any) {
+	m.m.Lock()
+	defer m.m.Unlock()
+	m.fresh()
+	if m.d == nil {
+		m.d = map[any]any{}
+	}
+	m.d[k] = v
+}
+
+func (m *Map) LoadOrStore(k, v any) (any, bool) {
+	m.m.Lock()
+	defer m.m.Unlock()
+	m.fresh()
+	if m.d == nil {
+		m.d = map[any]any{}
+	}
+	if old, ok := m.d[k]; ok {
+		return old, true
+	}
+	m.d[k] = v
+	return v, false
+}
+
+func (m *Map) LoadAndDelete(k any) (any, bool) {
+	m.m.Lock()
+	defer m.m.Unlock()
+	m.fresh()
+	v, ok := m.d[k]
+	delete(m.d, k)
+	return v, ok
+}
+
+func (m *Map) Delete(k any) {
+	m.m.Lock()
+	defer m.m.Unlock()
+	m.fresh()
+	delete(m.d, k)
+}
+
+func (m *Map) Range(f func(k, v any) bool) {
+	m.m.Lock()
+	m.fresh()
+	keys := make([]any, 0, len(m.d))
+	for k := range m.d {
+		keys = append(keys, k)
+	}
+	m.m.Unlock()
+	for _, k := range keys {
+		if v, ok := m.Load(k); ok && !f(k, v) {
+			return
+		}
+	}
+}
